@@ -1,7 +1,7 @@
 // C17 driver (plain build): one process = one call of constructSurrogate with a checkpoint file. The configuration is decoded from a case
 // file; every model call is appended (unbuffered write(2)) to the same log the fault injector writes to, so the order of samples and
 // file-system operations is recorded. Usage: c17driver <case file> <checkpoint path> <log path> <final grid path>
-#include "grid.hpp"
+#include "c17config.hpp"
 #include "TasmanianAddons.hpp"
 #include <fcntl.h>
 #include <unistd.h>
@@ -13,11 +13,9 @@ int main(int argc, char **argv) {
     Src s(bytes);
     int logfd = open(argv[3], O_WRONLY | O_APPEND | O_CREAT, 0644);
     try {
-        SpecOpts so; so.nonnested = false; so.custom = false; so.conformal = false; so.transforms = false; so.min_outs = 1; so.max_outs = 2; so.cap = 30; so.max_dims = 2;
-        GridState st; st.spec = decode_spec(s, so); st.vm.decode(s); if (st.spec.depth > 1) st.spec.depth = 1;
-        make_grid(st.g, st.spec, so.cap);
+        GridState st; C17Config cf = c17_decode(s, st, getenv("VERIF_C17_BIG") != nullptr);
         int d = st.spec.dims, outs = st.spec.outs; bool local = st.spec.family == F_LOCALP || st.spec.family == F_WAVE;
-        size_t budget = 6 + (size_t)s.pick(20), batch = 1 + (size_t)s.pick(2); bool parallel = s.chance(1, 3); size_t workers = parallel ? 2 + (size_t)s.pick(2) : 1;
+        size_t budget = cf.budget, batch = cf.batch; bool parallel = cf.parallel; size_t workers = cf.workers;
         std::mutex m;
         ModelSignature model = [&](std::vector<double> const &x, std::vector<double> &y, size_t) { size_t k = x.size() / (size_t)d; y.resize(k * (size_t)outs);
             for (size_t i = 0; i < k; i++) { for (int o = 0; o < outs; o++) y[i * (size_t)outs + (size_t)o] = st.vm(&x[i * (size_t)d], d, o, 0);
